@@ -21,6 +21,10 @@ type Filter struct {
 }
 
 type Will struct {
+	// Extra: what the accessors of the will message report that a CONNECT does not
+	// carry (packet identifier, DUP); empty for every will that came off the wire
+	// or was built for a round trip. Printed by Canon only when non-empty.
+	Extra   string
 	QoS     byte // Will().QoS() as the accessor reports it
 	Retain  bool // Will().Retain()
 	Topic   []byte
@@ -162,6 +166,9 @@ func (a *AP) Canon() string {
 		fmt.Fprintf(&sb, "KeepAlive=%d\n", a.KeepAlive)
 		fmt.Fprintf(&sb, "ClientID=%s\n", bs(a.ClientID))
 		if a.Will != nil {
+			if a.Will.Extra != "" {
+				fmt.Fprintf(&sb, "Will.(not-on-the-wire)=%s\n", a.Will.Extra)
+			}
 			fmt.Fprintf(&sb, "Will.QoS=%d\n", a.Will.QoS)
 			fmt.Fprintf(&sb, "Will.Retain=%v\n", a.Will.Retain)
 			fmt.Fprintf(&sb, "Will.Topic=%s\n", bs(a.Will.Topic))
